@@ -19,7 +19,7 @@ func Verif_C09_RpmScripts() {
 	mt := time.Unix(1500000000, 0).UTC()
 	var body [7][]byte
 	var set [7]bool
-	nlen := v.Bound("C09.len", 2, 4) + 1
+	nlen := v.Bound("C09.len", 2, 6) + 1
 	base := v.NondetChoice("script.len", nlen)
 	for i, slot := range verifRpmSlots {
 		set[i] = v.NondetBool("has." + slot)
